@@ -29,11 +29,19 @@ class StateHooks(Hooks):
         if isinstance(cm, Ref) and cm.cls == "opaque:Lock":
             st.emit("lock_enter", lock=cm)
             return [("val", cm, st)]
+        if isinstance(cm, Ref) and cm.cls == "opaque:OrderedLockObj":
+            # contract of OrderedLock.__enter__ (C19): returns once the caller owns the lock
+            st.emit("ordered_lock_enter", lock=cm)
+            return [("val", cm, st)]
         return Hooks.cm_enter(self, eng, st, cm)
 
     def cm_exit(self, eng, st, cm, exc):
         if isinstance(cm, Ref) and cm.cls == "opaque:Lock":
             st.emit("lock_exit", lock=cm)
+            return [("val", None, st)]
+        if isinstance(cm, Ref) and cm.cls == "opaque:OrderedLockObj":
+            # contract of OrderedLock.__exit__ (C19.exit.breaks): leaving the block with an exception BREAKS the lock for every later caller
+            st.emit("ordered_lock_exit", lock=cm, broken=exc is not None)
             return [("val", None, st)]
         return Hooks.cm_exit(self, eng, st, cm, exc)
 
@@ -506,7 +514,12 @@ def create_checkpoint(chk, prefix, want):
             elif any(e.kind == "wait_raised" for e in s.trace):
                 chk.prove(f"{prefix}.state.sync_blocks.error_propagates", s.pc, isinstance(v, Ref) and v == [e for e in s.trace if e.kind == "wait_raised"][0].exc and len(puts) == 1,
                           desc="a failure stored in the completion event leaves create_checkpoint as the raised exception (the caller never proceeds)")
-            elif not orphan and not failed:
+            broke = [e for e in s.trace if e.kind == "ordered_lock_exit" and e.broken]
+            if broke or any(e.kind == "ordered_lock_enter" for e in s.trace):
+                chk.prove(f"{prefix}.state.ordered_lock_not_broken", s.pc, z3.BoolVal(not broke),
+                          desc="no exception (not even the orphan refusal) leaves a `with self._ordered_checkpoint_lock:` block: an ordered lock left with an exception is broken for EVERY later caller, "
+                               "so every later checkpoint of the invocation would fail with OrderedLockError")
+            if k == "raise" and not orphan and not failed and not any(e.kind == "wait_raised" for e in s.trace):
                 chk.prove(f"{prefix}.state.sync_blocks.raises_only_expected", s.pc, F,
                           desc="create_checkpoint raises only: OrphanedChildException (refused), the failure stored in the failed flag, or the failure stored in the caller's completion event",
                           sample=f"create_checkpoint raised {getattr(getattr(v, 'cls', None), 'name', getattr(v, 'cls', v))}")
